@@ -20,6 +20,7 @@ import (
 	eth2p0 "github.com/attestantio/go-eth2-client/spec/phase0"
 	"github.com/libp2p/go-libp2p"
 	"github.com/libp2p/go-libp2p/core/crypto"
+	"github.com/libp2p/go-libp2p/core/host"
 	"github.com/libp2p/go-libp2p/core/peer"
 
 	"github.com/obolnetwork/charon/app/eth2wrap"
@@ -56,10 +57,11 @@ type valKeys struct {
 
 // delivery is one entry a subscriber received.
 type delivery struct {
-	pk  core.PubKey
-	idx int
-	sig []byte
-	dt  int
+	pk   core.PubKey
+	idx  int
+	sig  []byte
+	root [32]byte // message root of the delivered object (zero if it has none)
+	dt   int
 }
 
 // caseCtx is what the registered input stubs answer with while one case runs.
@@ -105,9 +107,13 @@ type world struct {
 	esrc   map[string]string             // ... and which of the object's time fields selects the fork version
 	vals   map[int]*valKeys              // labels 1..V in the lock, V+1 only known to the beacon node
 	lock   map[core.PubKey]map[int]tbls.PublicKey
-	vapis  map[int]*validatorapi.Component
-	psx    map[int]*parsigex.ParSigEx
-	peers  []peer.ID
+	// the components under test: created afresh for every schedule (fresh), shared by the calls of one schedule
+	vapis    map[int]*validatorapi.Component
+	psx      map[int]*parsigex.ParSigEx
+	verifier func(context.Context, peer.ID, core.Duty, core.PubKey, core.ParSignedData) error
+	gater    core.DutyGaterFunc
+	hosts    []host.Host
+	peers    []peer.ID
 	cur    *caseCtx
 	labels map[core.PubKey]int
 }
@@ -120,7 +126,13 @@ func (w *world) record(_ context.Context, duty core.Duty, set core.ParSignedData
 	sort.Strings(keys)
 	for _, k := range keys {
 		d := set[core.PubKey(k)]
-		w.cur.got = append(w.cur.got, delivery{pk: core.PubKey(k), idx: d.ShareIdx, sig: append([]byte(nil), d.Signature()...), dt: int(duty.Type)})
+		var root [32]byte
+		if d.SignedData != nil {
+			if r, err := d.MessageRoot(); err == nil {
+				root = r
+			}
+		}
+		w.cur.got = append(w.cur.got, delivery{pk: core.PubKey(k), idx: d.ShareIdx, sig: append([]byte(nil), d.Signature()...), root: root, dt: int(duty.Type)})
 	}
 	return nil
 }
@@ -189,31 +201,53 @@ func newWorld(t *testing.T, n, v int) *world {
 		t.Fatalf("setup: the mock's fork schedule has no activation in (%d, %d]", nowEpoch, nowEpoch+otherForkDelta)
 	}
 	w.place("")
-	gater, err := core.NewDutyGater(ctx, bmock, core.WithDutyGaterForT(t, func() time.Time { return w.now }, 2))
-	must(t, err)
-	verifier, err := parsigex.NewEth2Verifier(bmock, w.lock)
-	must(t, err)
 	for i := 0; i < n; i++ {
 		priv, _, err := crypto.GenerateSecp256k1Key(nil)
 		must(t, err)
 		id, err := peer.IDFromPrivateKey(priv)
 		must(t, err)
 		w.peers = append(w.peers, id)
-	}
-	for node := 1; node <= n; node++ {
-		vapi, err := validatorapi.NewComponent(bmock, w.lock, node, func(core.PubKey) string { return "0x0000000000000000000000000000000000000001" }, true, 30000000)
+		h, err := libp2p.New(libp2p.NoListenAddrs)
 		must(t, err)
-		w.stubs(vapi)
-		vapi.Subscribe(w.record)
-		w.vapis[node] = vapi
-		host, err := libp2p.New(libp2p.NoListenAddrs)
-		must(t, err)
-		t.Cleanup(func() { _ = host.Close() })
-		px := parsigex.NewParSigEx(host, p2p.Send, node-1, w.peers, verifier, gater)
-		px.Subscribe(w.record)
-		w.psx[node] = px
+		t.Cleanup(func() { _ = h.Close() })
+		w.hosts = append(w.hosts, h)
 	}
+	w.fresh()
 	return w
+}
+
+// fresh discards the components under test: every schedule runs against instances of its own (a verifier, gater,
+// validator API or parsigex component must not carry anything from one schedule into the next; the calls of ONE
+// schedule go to the same instances).
+func (w *world) fresh() {
+	var err error
+	w.gater, err = core.NewDutyGater(w.ctx, w.bmock, core.WithDutyGaterForT(w.t, func() time.Time { return w.now }, 2))
+	must(w.t, err)
+	w.verifier, err = parsigex.NewEth2Verifier(w.bmock, w.lock)
+	must(w.t, err)
+	w.vapis, w.psx = map[int]*validatorapi.Component{}, map[int]*parsigex.ParSigEx{}
+}
+
+func (w *world) vapi(node int) *validatorapi.Component {
+	if v, ok := w.vapis[node]; ok {
+		return v
+	}
+	vapi, err := validatorapi.NewComponent(w.bmock, w.lock, node, func(core.PubKey) string { return "0x0000000000000000000000000000000000000001" }, true, 30000000)
+	must(w.t, err)
+	w.stubs(vapi)
+	vapi.Subscribe(w.record)
+	w.vapis[node] = vapi
+	return vapi
+}
+
+func (w *world) px(node int) *parsigex.ParSigEx {
+	if x, ok := w.psx[node]; ok {
+		return x
+	}
+	px := parsigex.NewParSigEx(w.hosts[node-1], p2p.Send, node-1, w.peers, w.verifier, w.gater)
+	px.Subscribe(w.record)
+	w.psx[node] = px
+	return px
 }
 
 // stubs registers the inputs the handlers read from the scheduler / DutyDB / AggSigDB.
@@ -315,8 +349,13 @@ func TestExec(t *testing.T) {
 	real := signedInputEndpoints()
 	var w *world
 	for sid, s := range scheds {
-		if len(s) != 2 || drv.Str(s[0]["ev"]) != "Cfg" || drv.Str(s[1]["ev"]) != "Submit" {
-			t.Fatalf("schedule %d: want [Cfg, Submit]", sid)
+		if len(s) < 2 || len(s) > 4 || drv.Str(s[0]["ev"]) != "Cfg" {
+			t.Fatalf("schedule %d: want [Cfg, Submit (x1..3) | SubmitBatch]", sid)
+		}
+		for _, st := range s[1:] {
+			if ev := drv.Str(st["ev"]); ev != "Submit" && !(ev == "SubmitBatch" && len(s) == 2) {
+				t.Fatalf("schedule %d: want [Cfg, Submit (x1..3) | SubmitBatch]", sid)
+			}
 		}
 		n, v := drv.Num(s[0]["N"]), drv.Num(s[0]["V"])
 		tr.Emit(drv.Step{"ev": "Reset", "sid": sid, "N": n, "V": v})
@@ -331,6 +370,8 @@ func TestExec(t *testing.T) {
 		}
 		if w == nil || w.n != n || w.v != v {
 			w = newWorld(t, n, v)
+		} else {
+			w.fresh()
 		}
 		w.dom, w.esrc = map[string]signing.DomainName{}, map[string]string{}
 		for k, d := range s[0]["dom"].(map[string]any) {
@@ -340,8 +381,18 @@ func TestExec(t *testing.T) {
 			w.esrc[k] = drv.Str(e)
 		}
 		c := s[1]["c"].(map[string]any)
-		tr.Emit(drv.Step{"ev": "Submit", "c": c})
-		if err := w.run(tr, parseCase(c)); err != nil {
+		var err error
+		switch {
+		case drv.Str(s[1]["ev"]) == "SubmitBatch":
+			tr.Emit(drv.Step{"ev": "SubmitBatch", "c": c})
+			err = w.runBatch(tr, parseCase(c), c["pat"].(map[string]any))
+		case len(s) == 2 && drv.Str(c["alt"]) != "foreignSig":
+			tr.Emit(drv.Step{"ev": "Submit", "c": c})
+			err = w.run(tr, parseCase(c))
+		default:
+			err = w.runSeq(tr, s[1:])
+		}
+		if err != nil {
 			tr.Emit(drv.Step{"ev": "Anomaly", "what": err.Error(), "c": c})
 			return
 		}
@@ -595,6 +646,6 @@ func (w *world) submitPeer(c acase, entries []entry) (herr, err error) {
 	}
 	msg := &pbv1.ParSigExMsg{Duty: &pbv1.Duty{Slot: slot, Type: int32(dt)}, DataSet: &pbv1.ParSignedDataSet{Set: set}}
 	node := c.sender%w.n + 1
-	_, _, herr = w.psx[node].VerifHandle(w.ctx, w.peers[c.sender-1], msg)
+	_, _, herr = w.px(node).VerifHandle(w.ctx, w.peers[c.sender-1], msg)
 	return herr, nil
 }
